@@ -55,6 +55,10 @@ def _documented_rank(shape, fraction):
 
 def _unit_or_zero(f, w_r, eps, r):
     n = np.linalg.norm(ref.hp(f)[:, r])
+    if w_r is not None and w_r == 0 and np.isfinite(n):
+        # a component that vanished altogether (weight exactly 0): what is left of its columns is rounding debris in the subnormal
+        # range (1e-162), whose "unit" normalisation is only accurate to a few per cent. Nothing carries scale here.
+        return True
     return abs(n - 1) <= 100 * eps or (n == 0 and (w_r is None or w_r == 0))
 
 
